@@ -17,6 +17,7 @@ import (
 
 	"verifharness/ev"
 	"verifharness/gen"
+	"verifharness/walk"
 )
 
 type runner struct {
@@ -97,6 +98,24 @@ func main() {
 		if rf.Mode != "" && *mode == "" {
 			ctx.Out.Mode = rf.Mode
 		}
+		if rf.Case.Gen == "held-strings" {
+			// a whole-run witness: run the shard that saw it again (seed, shard, shards, tier)
+			ctx, err = ev.NewCtx(*prop, ctx.Out.Mode, *variant, rf.Case.Text, uint64(rf.Case.A), int(rf.Case.B), int(rf.Case.C), "", "")
+			if err != nil {
+				fmt.Fprintln(os.Stderr, "ctx:", err)
+				os.Exit(3)
+			}
+			w = newW(ctx)
+			r.run(w)
+			heldVerdict(ctx, *prop)
+			ctx.Finish()
+			if ctx.Out.ViolTotal > 0 {
+				fmt.Printf("replay: %d violation(s)\n", ctx.Out.ViolTotal)
+				os.Exit(1)
+			}
+			fmt.Println("replay: no violation")
+			return
+		}
 		ctx.SetReplay()
 		if r.replay == nil {
 			fmt.Fprintln(os.Stderr, "property has no single-case replay")
@@ -112,10 +131,24 @@ func main() {
 		return
 	}
 	r.run(w)
+	heldVerdict(ctx, *prop)
 	ctx.Out.Extra["wall_s"] = time.Since(start).Seconds()
 	if err := ctx.Finish(); err != nil {
 		fmt.Fprintln(os.Stderr, "finish:", err)
 		os.Exit(3)
+	}
+}
+
+// heldVerdict: strings the API handed out earlier in the run must still read what they read then.
+func heldVerdict(ctx *ev.Ctx, prop string) {
+	bad, n := walk.HeldReport()
+	if n == 0 {
+		return
+	}
+	ctx.Count("returned_go_strings_re-examined_later", int(n))
+	if bad != "" {
+		ctx.Violation(prop+"/returned-string-changed-later", bad+" (a Go string handed out by the API changed after the object it came from was reused, edited or its input overwritten)",
+			&ev.Case{Gen: "held-strings", A: int64(ctx.Out.Seed), B: int64(ctx.Out.Shard), C: int64(ctx.Out.NShards), Text: ctx.Out.Tier})
 	}
 }
 
